@@ -84,7 +84,7 @@ def run(prop, tier, extra=None):
     if prop in ("C05", "C02"):
         # every other layer class: catalogue compositions.  C05: read by the extended dissector (Stack2);
         # C02: size-exactness and the region monitor on the same compositions
-        cat, g4 = vlib.tlc_generate("wire/CatGen", "CatGen.cfg" if quick else "CatGen_t.cfg", timeout=900)
+        cat, g4 = vlib.tlc_generate("wire/CatGen", ("CatGen_C02.cfg" if quick else "CatGen_C02_t.cfg") if prop == "C02" else ("CatGen.cfg" if quick else "CatGen_t.cfg"), timeout=900)
         cat = sorted({vlib.canon_hash(s): s for s in cat}.values(), key=lambda s: (s["id"], s["rep"]))
         p3 = vlib.Pipeline(prop, "wire_cat", "wire/CatTrace", "CatTrace_%s.cfg" % prop)
         p3.push(cat, "cat", timeout=3000)
